@@ -15,12 +15,12 @@ namespace Dmn.Lexer
 
 /-- `longest_match`: when the part collector has left `st` (parts, consumed positions), the
 `item` and `till_in` tweaks do not apply, and `k` is the greatest number of leading parts whose
-flattened text is a key of the scope, then `consume_name` returns exactly the name made of
+`Name::new` text (the text under which a name is stored in a scope) is a key of the scope, then `consume_name` returns exactly the name made of
 these `k` parts and rewinds the cursor to just after the position recorded for part `k`. -/
 theorem longest_match (l : Lx) (st : NameSt)
     (hcol : collectParts l.input l.pos = .ok st)
     (hitem : st.parts.head? ≠ some kwItem)
-    (htill : l.tillIn = false ∨ positionOfIn st.parts = none)
+    (htill : l.tillIn = false ∨ (positionOfIn st.parts).filter (fun i => 0 < i) = none)
     (k : Nat) (hk1 : 1 ≤ k) (hkn : k ≤ st.parts.length)
     (hkey : isKeyAt l.keys st.parts k = true)
     (hmax : ∀ j, k < j → j ≤ st.parts.length → isKeyAt l.keys st.parts j = false) :
@@ -36,7 +36,7 @@ theorem longest_match (l : Lx) (st : NameSt)
   have h1 : (st.parts.head? == some kwItem) = false := by
     simpa using hitem
   simp only [h1, Bool.false_eq_true, if_false]
-  have h2 : (if l.tillIn = true then positionOfIn st.parts else none) = none := by
+  have h2 : (if l.tillIn = true then (positionOfIn st.parts).filter (fun i => 0 < i) else none) = none := by
     cases htill with
     | inl h => simp [h]
     | inr h => simp [h]
@@ -55,7 +55,7 @@ stopped. -/
 theorem unbound_whole_name (l : Lx) (st : NameSt)
     (hcol : collectParts l.input l.pos = .ok st)
     (hitem : st.parts.head? ≠ some kwItem)
-    (htill : l.tillIn = false ∨ positionOfIn st.parts = none)
+    (htill : l.tillIn = false ∨ (positionOfIn st.parts).filter (fun i => 0 < i) = none)
     (hnone : ∀ j, 1 ≤ j → j ≤ st.parts.length → isKeyAt l.keys st.parts j = false) :
     ∃ tt l', consumeName l = .ok (⟨tt, .name (nameNew st.parts)⟩, l') ∧ l'.pos = st.pos ∧
       (tt = .name ∨ tt = .nameDateTime ∨ tt = .builtInTypeName) := by
@@ -66,7 +66,7 @@ theorem unbound_whole_name (l : Lx) (st : NameSt)
   have h1 : (st.parts.head? == some kwItem) = false := by
     simpa using hitem
   simp only [h1, Bool.false_eq_true, if_false]
-  have h2 : (if l.tillIn = true then positionOfIn st.parts else none) = none := by
+  have h2 : (if l.tillIn = true then (positionOfIn st.parts).filter (fun i => 0 < i) else none) = none := by
     cases htill with
     | inl h => simp [h]
     | inr h => simp [h]
@@ -88,17 +88,24 @@ def exLx2 : Lx :=
 example : consumeName exLx2 = .ok (⟨.name, .name [120, 45, 121]⟩, { exLx2 with pos := 5 }) := by decide
 
 
--- FULL STATEMENT (not provable of the current code, finding F19):
---   theorem normalise_agree (parts : List (List Nat)) : flattenNameParts parts = nameNew parts
--- `flatten_name_parts` (the lexer's look-up text) and `Name::new` (the text under which a name is
--- stored in a scope) differ on part lists with two adjacent additional symbols, with a leading or
--- with a trailing symbol (`normalise_agree_counterexample`).
+/-- `key_lookup_is_name_new`: the text the longest-prefix loop looks up (lexer.rs:666, repaired
+by b9aabe3, finding F19) IS the `Name::new` text of the candidate parts — the normalisation under
+which `Name`s are stored in a scope — for every part list (adjacent, leading or trailing
+additional symbols included). -/
+theorem key_lookup_is_name_new (keys : List (List Nat)) (parts : List (List Nat)) (k : Nat) :
+    isKeyAt keys parts k = keys.contains (nameNew (parts.take k)) := rfl
 
-/-- `normalise_agree_partial`: on regular part lists — a word, then words each optionally
-preceded by ONE additional symbol; words are non-empty and free of white space and additional
-symbols — the lexer's look-up text equals the `Name::new` text.  Hence a name put into the scope
-through `Name` is found by the longest-prefix search (`bound_key_is_found`). -/
-theorem normalise_agree_partial (parts : List (List Nat)) (h : regularParts parts = true) :
+-- non-vacuity at the old witness of F19: scope {`a+-b`}, input `a+-b + 1`: the name `a+-b` (4
+-- parts), cursor at 4
+def exF19 : Lx :=
+  { input := [97, 43, 45, 98, 32, 43, 32, 49], pos := 0, start := none, unaryTests := false,
+    between := false, typeName := false, tillIn := false, keys := [[97, 43, 45, 98]] }
+example : consumeName exF19 = .ok (⟨.name, .name [97, 43, 45, 98]⟩, { exF19 with pos := 4 }) := by decide
+
+/-- `flatten_name_parts` (lexer.rs:1048; since b9aabe3 used by its unit tests only) agrees with
+`Name::new` on regular part lists: a word, then words each optionally preceded by ONE additional
+symbol; words non-empty and free of white space and additional symbols. -/
+theorem flatten_agrees_on_regular (parts : List (List Nat)) (h : regularParts parts = true) :
     flattenNameParts parts = nameNew parts :=
   flatten_eq_nameNew_of_regular parts h
 
@@ -106,19 +113,11 @@ theorem normalise_agree_partial (parts : List (List Nat)) (h : regularParts part
 example : regularParts [[97], [45], [98], [99]] = true ∧
     flattenNameParts [[97], [45], [98], [99]] = [97, 45, 98, 32, 99] := by decide
 
-/-- `normalise_agree_counterexample`: for the parts `a`, `+`, `-`, `b` the look-up text is
-`a +-b` but the name's text is `a+-b`; for `a`, `+` it is `a +` against `a+`. -/
-theorem normalise_agree_counterexample :
+/-- `flatten_name_parts` differs from `Name::new` on `a`, `+`, `-`, `b` (`a +-b` against `a+-b`) and on `a`, `+`
+(`a +` against `a+`): why the look-up had to change. -/
+theorem flatten_differs_on_adjacent_symbols :
     flattenNameParts [[97], [43], [45], [98]] ≠ nameNew [[97], [43], [45], [98]] ∧
     flattenNameParts [[97], [43]] ≠ nameNew [[97], [43]] := by decide
-
-/-- A regular name stored under its `Name::new` text is a key for the longest-prefix search. -/
-theorem bound_key_is_found (keys : List (List Nat)) (parts : List (List Nat)) (k : Nat)
-    (hreg : regularParts (parts.take k) = true) (hkey : keys.contains (nameNew (parts.take k)) = true) :
-    isKeyAt keys parts k = true := by
-  unfold isKeyAt
-  rw [normalise_agree_partial _ hreg]
-  exact hkey
 
 /-- `collect_eq_split`: started on a name start character, the five-state part collector of
 `consume_name` returns exactly the words and symbols of the structural splitter `splitParts`,
@@ -175,8 +174,9 @@ theorem collect_roundtrip (pre rest p0 : List Nat) (ps sps : List (List Nat))
     rw [List.getElem?_map, hp]
     simp
 
-/-- `bound_name_resolves` (the lexer's part of the property): a regular name that is bound in
-the scope under its `Name::new` text, written with any legal spacing and followed by text that
+/-- `bound_name_resolves` (the lexer's part of the property): a name — words and additional
+symbols in any arrangement that starts with a word — that is bound in the scope under its
+`Name::new` text, written with any legal spacing and followed by text that
 does not extend its last word, is returned by `consume_name` as ONE name token carrying that
 text, with the cursor just after the name — unless a longer prefix of the collected parts is
 bound as well (then that one wins: `longest_match`), the name starts with the word `item`, or the
@@ -184,7 +184,6 @@ lexer is in `till_in` mode. -/
 theorem bound_name_resolves (l : Lx) (pre rest p0 : List Nat) (ps sps : List (List Nat))
     (hinp : l.input = pre ++ (renderName (p0 :: ps) ([] :: sps) ++ rest)) (hpos : l.pos = pre.length)
     (hok : renderOk false (p0 :: ps) ([] :: sps) = true) (hw : isWordPart p0 = true)
-    (hreg : regularParts (p0 :: ps) = true)
     (hrest : notExtending rest) (hamb : NoAmbiguousBlank l.input)
     (hitem : p0 ≠ kwItem) (htill : l.tillIn = false)
     (hbound : l.keys.contains (nameNew (p0 :: ps)) = true)
@@ -206,8 +205,8 @@ theorem bound_name_resolves (l : Lx) (pre rest p0 : List Nat) (ps sps : List (Li
       simpa using h0
     rw [this]
     intro h; cases h; exact hitem rfl
-  have hkey : isKeyAt l.keys st.parts (ps.length + 1) = true :=
-    bound_key_is_found l.keys st.parts (ps.length + 1) (by rw [htake]; exact hreg) (by rw [htake]; exact hbound)
+  have hkey : isKeyAt l.keys st.parts (ps.length + 1) = true := by
+    rw [key_lookup_is_name_new, htake]; exact hbound
   obtain ⟨p, hp, hres⟩ := longest_match l st hst hhead (Or.inl htill) (ps.length + 1) (by omega) hlenle hkey
     (hlonger st hst)
   simp only [Nat.add_sub_cancel] at hp
@@ -229,32 +228,26 @@ def exLx3 : Lx :=
   { input := [40, 97, 32, 32, 45, 32, 98, 41, 42, 50], pos := 1, start := none, unaryTests := false,
     between := false, typeName := false, tillIn := false, keys := [[97, 45, 98]] }
 example : renderOk false [[97], [45], [98]] [[], [32, 32], [32]] = true ∧
-    regularParts [[97], [45], [98]] = true ∧
     consumeName exLx3 = .ok (⟨.name, .name [97, 45, 98]⟩, { exLx3 with pos := 7 }) := by decide
 
-/-- `operator_when_unbound`: the word `w0` is bound, it is followed by optional white space and
+/-- `operator_when_unbound`: the word `w0` is bound (under its `Name::new` text), it is followed by optional white space and
 an additional symbol `sym` that stands alone (no `->`, `**`, `//`, `/*`, `..`, `.5`), and no
 longer prefix of the collected parts is bound.  Then `consume_name` returns the name `w0` with
 the cursor just after it, and the next token is the operator of `sym` (`+` `-` `*` `/` `.`):
 the same characters denote addition, subtraction, multiplication, division or a path. -/
 theorem operator_when_unbound (l : Lx) (pre w0 blanks r : List Nat) (sym : Nat) (tt : TT)
     (hinp : l.input = pre ++ (renderName [w0] [[]] ++ (blanks ++ sym :: r))) (hpos : l.pos = pre.length)
-    (hw : isWordPart w0 = true) (hreg : regularParts [w0] = true)
+    (hw : isWordPart w0 = true)
     (hbl : isBlanks blanks = true) (hop : opToken sym = some tt) (halone : standsAlone sym r.head?)
     (hamb : NoAmbiguousBlank l.input) (hitem : w0 ≠ kwItem) (htill : l.tillIn = false)
-    (hbound : l.keys.contains w0 = true)
+    (hbound : l.keys.contains (nameNew [w0]) = true)
     (hlonger : ∀ st, collectParts l.input l.pos = .ok st →
       ∀ j, 1 < j → j ≤ st.parts.length → isKeyAt l.keys st.parts j = false) :
-    ∃ l1, consumeName l = .ok (⟨.name, .name w0⟩, l1) ∧ l1.pos = pre.length + w0.length ∧
+    ∃ l1, consumeName l = .ok (⟨.name, .name (nameNew [w0])⟩, l1) ∧ l1.pos = pre.length + w0.length ∧
       readNextToken l1 = .ok (tk tt, { l1 with pos := pre.length + w0.length + blanks.length + 1 }) := by
   have hsymb : isAdditionalNameSymbol sym = true := by
     unfold opToken at hop
     split at hop <;> first | rfl | cases hop
-  have hname : nameNew [w0] = w0 := by
-    have hw0 : wordOk w0 = true := by
-      simp only [regularParts, Bool.and_eq_true] at hreg; exact hreg.1
-    have := nameNew_regular w0 [] hw0 (by intro g hg; cases hg)
-    simpa [partsOf, tightText] using this
   have hrest : notExtending (blanks ++ sym :: r) := by
     intro ch hch
     cases blanks with
@@ -269,9 +262,8 @@ theorem operator_when_unbound (l : Lx) (pre w0 blanks r : List Nat) (sym : Nat) 
       exact hbl.1.2
   have hok : renderOk false [w0] [[]] = true := by
     simp [renderOk, isBlanks, hw]
-  have hres := bound_name_resolves l pre (blanks ++ sym :: r) w0 [] [] hinp hpos hok hw hreg hrest hamb
-    hitem htill (by rw [hname]; exact hbound) (by simpa using hlonger)
-  rw [hname] at hres
+  have hres := bound_name_resolves l pre (blanks ++ sym :: r) w0 [] [] hinp hpos hok hw hrest hamb
+    hitem htill hbound (by simpa using hlonger)
   have hlen : (renderName [w0] [[]]).length = w0.length := by simp [renderName]
   rw [hlen] at hres
   refine ⟨_, hres, rfl, ?_⟩
